@@ -1036,6 +1036,9 @@ def _ising_shapes(tier):
         # grids with a side of 2: the smallest size of the quantifier, isolated
         dict(rows=[2], cols=[2, 3], seeds=[0], tag="[side-2]"),
         dict(rows=[3], cols=[2], seeds=[0], tag="[side-2]"),
+        # indices of two digits (names sort differently as text and as numbers)
+        dict(rows=[11], cols=[3], seeds=[0]),
+        dict(rows=[3], cols=[12], seeds=[0]),
     ]
 
 
